@@ -67,7 +67,18 @@ fn main() {
         println!("cargo:warning=server_persistent.rs: start-up block of main() not found between its marker lines");
         startup_fn = "\npub const STARTUP_AVAILABLE: bool = false;\npub async fn verif_startup(_store_type: &str, _data_path: std::path::PathBuf, _wal: Option<redis_sim::streaming::WalConfig>, _repl_config: redis_sim::replication::ReplicationConfig) -> Result<(std::sync::Arc<redis_sim::production::ReplicatedShardedState>, Option<redis_sim::streaming::WorkerHandles>, Option<(redis_sim::streaming::WalActorHandle, tokio::task::JoinHandle<()>, Option<tokio::task::JoinHandle<()>>)>), Box<dyn std::error::Error + Send + Sync>> { Err(\"unavailable\".into()) }\n".to_string();
     }
+    // 6. (optional) the binary's sockets come from the in-memory network of hook H7, which puts its own gossip listener
+    //    (`start_gossip_listener`, `handle_gossip_connection`) on the simulated network as it is
+    let mut gossip_fn = String::from("\npub const GOSSIP_AVAILABLE: bool = false;\npub async fn verif_gossip_listener(_port: u16, _state: std::sync::Arc<redis_sim::production::ReplicatedShardedState>) -> Result<(), String> { Err(\"unavailable\".into()) }\n");
+    let net_import = "use tokio::net::{TcpListener, TcpStream};\n";
+    if problems.is_empty() && t.matches(net_import).count() == 1 && t.matches("async fn start_gossip_listener(\n    port: u16,\n    state: Arc<ReplicatedShardedState>,").count() == 1 {
+        t = t.replacen(net_import, "use redis_sim::production::verif_hooks::simnet::{TcpListener, TcpStream};\n", 1);
+        gossip_fn = String::from("\npub const GOSSIP_AVAILABLE: bool = true;\npub async fn verif_gossip_listener(port: u16, state: std::sync::Arc<redis_sim::production::ReplicatedShardedState>) -> Result<(), String> { start_gossip_listener(port, state).await.map_err(|e| e.to_string()) }\n");
+    } else {
+        println!("cargo:warning=server_persistent.rs: gossip listener not put on the simulated network (import or signature changed)");
+    }
     if problems.is_empty() {
+        t.push_str(&gossip_fn);
         t = format!("macro_rules! println {{ ($($t:tt)*) => {{{{}}}} }}\n{}", t);
         t.push_str(&startup_fn);
         t.push_str("\npub const AVAILABLE: bool = true;\npub const PROBLEMS: &str = \"\";\n");
@@ -76,7 +87,7 @@ fn main() {
         t.push_str("pub fn verif_encode_error(msg: &str) -> Vec<u8> { let mut b = bytes::BytesMut::new(); encode_error_into(msg, &mut b); b.to_vec() }\n");
     } else {
         for p in &problems { println!("cargo:warning=server_persistent.rs not included: {}", p); }
-        t = format!("pub const STARTUP_AVAILABLE: bool = false;\npub async fn verif_startup(_store_type: &str, _data_path: std::path::PathBuf, _wal: Option<redis_sim::streaming::WalConfig>, _repl_config: redis_sim::replication::ReplicationConfig) -> Result<(std::sync::Arc<redis_sim::production::ReplicatedShardedState>, Option<redis_sim::streaming::WorkerHandles>, Option<(redis_sim::streaming::WalActorHandle, tokio::task::JoinHandle<()>, Option<tokio::task::JoinHandle<()>>)>), Box<dyn std::error::Error + Send + Sync>> {{ Err(\"unavailable\".into()) }}\npub const AVAILABLE: bool = false;\npub const PROBLEMS: &str = {:?};\npub async fn verif_handle_connection<S: tokio::io::AsyncRead + tokio::io::AsyncWrite + Unpin>(_stream: S, _state: std::sync::Arc<redis_sim::production::ReplicatedShardedState>) -> Result<(), String> {{ Err(String::new()) }}\npub fn verif_encode_resp(_value: &redis_sim::redis::RespValue) -> Vec<u8> {{ Vec::new() }}\npub fn verif_encode_error(_msg: &str) -> Vec<u8> {{ Vec::new() }}\n", problems.join("; "));
+        t = format!("pub const GOSSIP_AVAILABLE: bool = false;\npub async fn verif_gossip_listener(_port: u16, _state: std::sync::Arc<redis_sim::production::ReplicatedShardedState>) -> Result<(), String> {{ Err(\"unavailable\".into()) }}\npub const STARTUP_AVAILABLE: bool = false;\npub async fn verif_startup(_store_type: &str, _data_path: std::path::PathBuf, _wal: Option<redis_sim::streaming::WalConfig>, _repl_config: redis_sim::replication::ReplicationConfig) -> Result<(std::sync::Arc<redis_sim::production::ReplicatedShardedState>, Option<redis_sim::streaming::WorkerHandles>, Option<(redis_sim::streaming::WalActorHandle, tokio::task::JoinHandle<()>, Option<tokio::task::JoinHandle<()>>)>), Box<dyn std::error::Error + Send + Sync>> {{ Err(\"unavailable\".into()) }}\npub const AVAILABLE: bool = false;\npub const PROBLEMS: &str = {:?};\npub async fn verif_handle_connection<S: tokio::io::AsyncRead + tokio::io::AsyncWrite + Unpin>(_stream: S, _state: std::sync::Arc<redis_sim::production::ReplicatedShardedState>) -> Result<(), String> {{ Err(String::new()) }}\npub fn verif_encode_resp(_value: &redis_sim::redis::RespValue) -> Vec<u8> {{ Vec::new() }}\npub fn verif_encode_error(_msg: &str) -> Vec<u8> {{ Vec::new() }}\n", problems.join("; "));
     }
     std::fs::write(&out, t).expect("write generated module");
 }
